@@ -17,8 +17,8 @@ func init() {
 		ID:        "C04",
 		Level:     "exploration",
 		Technique: "bounded exhaustive configuration enumeration (every alignment assignment to column 0 and each column; every declared width/height against every text) rendered by the real code and compared slot by slot with a reference renderer transcribed from the statement",
-		Rule: "family lifecycle: one table (one item declaring its height, one its width) and one long-lived wrapper, every sequence of <=4 (thorough 5) in-place modifications (items mutated + Update, headers replaced, rows grown, alignment of column 0/1/2 changed), Render and failed RenderTo; family twin-texts: two cells with byte-identical text, one declaring width/height; family alignment: 6 grids (<=3 columns, ragged, multi-line, separators, header or not; column contents giving pad 0,1,2,3) x every assignment of {unset,left,right,centre} to column 0 and each column (4^(1+ncols)) x 3 decorations; " +
-			"family declared-size: items with text in {X, abc, SGR-escaped X, two-line, empty} x declared width {none,-1,0,1,=text,text+3} x declared height {none,-1,0,1,=lines,lines+2} x position {header, body first, body last} x column alignment {unset,right,centre}; " +
+		Rule: "family lifecycle: one table (one item declaring its height, one its width) and one long-lived wrapper, every sequence of <=4 (thorough 5) in-place modifications (items mutated + Update, headers replaced, rows grown, alignment of column 0/1/2 changed), Render and failed RenderTo; family twin-texts: two cells with byte-identical text, one declaring width/height; family alignment: 7 grids (one with DEL/ESC/TAB/wide characters) (<=3 columns, ragged, multi-line, separators, header or not; column contents giving pad 0,1,2,3) x every assignment of {unset,left,right,centre} to column 0 and each column (4^(1+ncols)) x 3 decorations; " +
+			"family declared-size: items with text in {X, abc, SGR-escaped X, two-line, empty} x declared width {none,-1,0,1,=text,text+3,300,3000} x declared height {none,-1,0,1,=lines,lines+2,70,1100} x position {header, body first, body last} x column alignment {unset,right,centre}; " +
 			"non-trivial = any non-default alignment or any declared size; distinct by (grid, alignments)",
 		Assumptions: []string{
 			"where the statement is silent the layout is not asserted, only no-panic/success and the declared-height lower bound: negative or zero declared sizes, a declared height below the text's line count, a declared width on a multi-line or empty item",
@@ -48,6 +48,7 @@ func runC04(x *X) {
 		{HasHeader: true, Header: []string{"ｗ", "é"}, Rows: []GridRow{{Cells: []string{"abc", "abcd"}}, {Cells: []string{"ｗｗ", ""}}}},
 		{Rows: []GridRow{{Cells: []string{"a"}}, {Cells: []string{"bb"}}, {Cells: []string{"ccc"}}, {Cells: []string{"dddd"}}}},
 		{HasHeader: true, Header: []string{"a", "bb", "ccc"}, Rows: nil},
+		{HasHeader: true, Header: []string{"wide-header", "h2"}, Rows: []GridRow{{Cells: []string{"a\x7fb", "\x7f"}}, {Cells: []string{"\x1b[1mX", "t\tt"}}, {Cells: []string{"é", "ｗ"}}}},
 	}
 	x.Explore("alignment", ExploreOpts{ShardDepth: 2, Bound: fmt.Sprintf("%d grids x 4^(1+ncols) alignment assignments x %d decorations", len(grids), len(decors))}, func(c *Chooser) {
 		gi := c.Choose(len(grids))
@@ -116,8 +117,8 @@ func runC04(x *X) {
 		cell := TCell{Text: text}
 		nl := len(cell.lines())
 		tw := cell.width()
-		wopts := []*int{nil, ip(-1), ip(0), ip(1), ip(tw), ip(tw + 3)}
-		hopts := []*int{nil, ip(-1), ip(0), ip(1), ip(nl), ip(nl + 2)}
+		wopts := []*int{nil, ip(-1), ip(0), ip(1), ip(tw), ip(tw + 3), ip(300), ip(3000)}
+		hopts := []*int{nil, ip(-1), ip(0), ip(1), ip(nl), ip(nl + 2), ip(70), ip(1100)}
 		cell.DeclW = wopts[c.Choose(len(wopts))]
 		cell.DeclH = hopts[c.Choose(len(hopts))]
 		pos := c.Choose(3)
